@@ -46,9 +46,11 @@ void *nondet_ptr(void);
 #ifdef VERIF_CANARY_RUN
 #define CANARY(name) __CPROVER_assert(0, "CANARY " name)
 #define CANARY_ASSUME(c) __CPROVER_assume(c)
+#define CANARY_SET(lhs, val) ((lhs) = (val))      /* concrete witness input: constant-propagated by symex, unlike an assumption */
 #else
 #define CANARY(name)
 #define CANARY_ASSUME(c)
+#define CANARY_SET(lhs, val) ((void)0)
 #endif
 
 #define PO(p) ((long long)__CPROVER_POINTER_OFFSET(p))
